@@ -3,7 +3,7 @@
 From Coq Require Import List NArith ZArith Bool Arith String.
 Import ListNotations.
 Require Import Scan Parse Construct ConstructLemmas.
-Require Flatten.
+Require Flatten FlattenMany.
 
 (* KIND C14_equal_keys_first_position : U *)
 (* inserting a key equal to one already present keeps the existing key object and its position; a new key goes to the end *)
@@ -90,6 +90,30 @@ Example C14_flatten_nonvacuous :
                                 option_map map_items (nth_error (nodes s2) 0) = Some [(9, 10); (7, 8); (1, 2)]
   | _, _ => False end.
 Proof. vm_compute. split; reflexivity. Qed.
+
+(* KIND C14_flatten_any_number_of_merges : U *)
+(* ANY number of `<<` keys, anywhere among the pairs (adjacent ones included), each merging a mapping that has no merge key of its own, in any
+   node store: afterwards the mapping holds the merged pairs in the order of the merge keys - a later merge key comes later, so, inserted in
+   this order, it overrides an earlier one - followed by its own pairs in their order (they override every merged pair); every `<<` pair
+   is gone; no other node has changed (Proofs/FlattenMany.v: induction over the pairs with the in-place updates of the node) *)
+Theorem C14_flatten_any_number_of_merges : forall f' id s n items m o,
+  nth_error (nodes s) id = Some n -> n_kind n = NMap items -> FlattenMany.shape (nodes s) id (f' + f') items m o -> List.length items < S f' + S f' ->
+  exists s', flatten (S (S f')) id s = LOk (tt, s') /\ nth_error (nodes s') id = Some (with_items n (m ++ o)%list) /\
+             (forall j, j <> id -> nth_error (nodes s') j = nth_error (nodes s) j).
+Proof. exact FlattenMany.flatten_any_number_of_merges. Qed.
+Eval vm_compute in "ASSUME:C14_flatten_any_number_of_merges"%string. Print Assumptions C14_flatten_any_number_of_merges.
+(* KIND C14_two_adjacent_merges : F *)
+(* non-vacuity: {<<: {a: 1}, <<: {b: 2}, c: 3} has the shape of the theorem and flattens to [a; b; c] *)
+Example C14_two_adjacent_merges :
+  let mk0 := {| m_index := 0; m_line := 0; m_col := 0 |} in
+  let sc t v := {| n_tag := t; n_kind := NScalar v SPlain; n_start := mk0 |} in
+  let mp l := {| n_tag := t_map; n_kind := NMap l; n_start := mk0 |} in
+  let ns := [mp [(1, 2); (3, 4); (5, 6)]; sc t_merge [60; 60]%N; mp [(7, 8)]; sc t_merge [60; 60]%N; mp [(9, 10)]; sc t_str [99%N]; sc t_int [51%N];
+             sc t_str [97%N]; sc t_int [49%N]; sc t_str [98%N]; sc t_int [50%N]] in
+  let s := {| nodes := ns; hp := []; cache := []; recursive := []; gens := [] |} in
+  FlattenMany.shape ns 0 4 [(1, 2); (3, 4); (5, 6)] [(7, 8); (9, 10)] [(5, 6)] /\
+  match flatten 4 0 s with LOk (_, s') => option_map map_items (nth_error (nodes s') 0) = Some [(7, 8); (9, 10); (5, 6)] | _ => False end.
+Proof. exact FlattenMany.two_adjacent_merges. Qed.
 
 (* PARTIAL: flatten_spec / dict_of_flatten (merge precedence, recursion), flatten_idempotent (shared sources) and the shape errors are
    not proved on the in-place flatten model; they are decided by the construct correspondence and by the direct run against an independent
